@@ -216,6 +216,100 @@ def c05_case(rng):
                       drain_p=rng.choice([1.0, 1.0, 0.8]))
 
 
+# ------------------------------------------------------------------ C06, large files
+class LargeFileCase:
+    """Acknowledged receiver of a file larger than 4 GiB (PDUs carry the large-file flag, offsets and sizes are 64 bit):
+    two File Data PDUs far apart, the EOF, the deferred NAK sequence and one re-issue.  The destination file is sparse;
+    nothing is ever verified (data stays missing).  The Coq model zero-fills gaps in a byte LIST, so these traces are judged
+    by the oracle on the implementation only (not part of the correspondence)."""
+
+    def __init__(self, cfg: Cfg, offs, tag="c06L"):
+        self.cfg, self.offs, self.tag = cfg, offs, tag
+
+    def describe(self):
+        return {"large_file": True, "imm_nak": self.cfg.imm_nak, "max_packet": self.cfg.max_packet, "offsets": self.offs}
+
+    def run(self):
+        cfg = self.cfg
+        w = World(cfg, self.tag)
+        try:
+            d = w.dst
+            size = 2 ** 32 + 10 * 1024 + 100
+            h = campaign._hdr(cfg, 0, 3)
+            h[3] = 1
+
+            def deliver(ints):
+                d.sm(codec.reparse(codec.build_pdu(ints, w.pm)))
+                while d.get() is not None:
+                    pass
+            deliver(campaign.pdu_ints(codec.K_MD, h, [int(cfg.closure), cfg.cktype, size, 1, 1, 1, 1, 2, 0]))
+            for off in self.offs:
+                deliver(campaign.pdu_ints(codec.K_FD, h, [off, 4, 1, 2, 3, 4]))
+            deliver(campaign.pdu_ints(codec.K_EOF, h, [0, 0, 0, 0, 0, size, 0, 0, 0]))
+            for _ in range(2):
+                d.sm(None)
+                while d.get() is not None:
+                    pass
+            w.advance(cfg.nak_ms)
+            d.sm(None)
+            while d.get() is not None:
+                pass
+            self.sides = [("dest", d.ops, d.obs)]
+            return self
+        finally:
+            w.close()
+
+
+def oracle_c06_large(tr: Trace):
+    """Interval arithmetic instead of byte sets: every NAK PDU of a large-file transaction carries the large-file flag, fits
+    max_packet_len, requests only bytes not yet received, and the deferred sequence requests exactly what is missing."""
+    remote = tr.cfg["remotes"][0]
+    got_ranges = []          # (start, end) received so far
+    eof = None
+    seq = []                 # requests of the NAKs retrieved since the last call
+    last_missing = None
+
+    def missing(upto):
+        cur, out = 0, []
+        for a, b in sorted(got_ranges):
+            if a > cur:
+                out.append((cur, min(a, upto)))
+            cur = max(cur, b)
+        if cur < upto:
+            out.append((cur, upto))
+        return [(a, b) for a, b in out if a < b]
+    for st in tr.steps:
+        if st.ob["exc"] >= 100 and st.tag in (0, 1):
+            raise Failure(f"C06 large-file transaction: exception code {st.ob['exc']} out of state_machine (a NAK that cannot be "
+                          f"encoded?) (op {st.i})")
+        if st.tag in (0, 1):
+            if seq and eof is not None and last_missing is not None and sorted(seq) != last_missing:
+                raise Failure(f"C06 large file: deferred NAK sequence requests {sorted(seq)}, missing is {last_missing} (op {st.i})")
+            seq = []
+            if st.tag == 0 and st.pdu["kind"] == codec.K_FD:
+                last_missing = None
+                got_ranges.append((st.pdu["offset"], st.pdu["offset"] + len(st.pdu["data"])))
+            elif st.tag == 0 and st.pdu["kind"] == codec.K_EOF:
+                eof = st.pdu["fsize"]
+                last_missing = None
+            else:
+                last_missing = missing(eof) if eof is not None else None
+        if st.tag == 2 and st.ob["ret"] == 1:
+            g, plen = codec.dec_got(st.ob["extra"])
+            if g["kind"] != codec.K_NAK:
+                continue
+            if g["large"] != 1:
+                raise Failure(f"C06 NAK PDU of a large-file transaction does not carry the large-file flag (op {st.i})")
+            if plen > remote["max_packet"]:
+                raise Failure(f"C06 NAK PDU of {plen} bytes ({len(g['reqs'])} 64-bit requests) exceeds max_packet_len "
+                              f"{remote['max_packet']} (op {st.i})")
+            for a, b in g["reqs"]:
+                if not (0 <= a < b) or any(x < b and a < y for x, y in got_ranges):
+                    raise Failure(f"C06 large file: request ({a},{b}) is empty or covers bytes already received (op {st.i})")
+            if eof is not None:
+                seq += g["reqs"]
+
+
 # ------------------------------------------------------------------ C06
 def max_seg_reqs(remote, hdrl, crc, large=False):
     base = hdrl + 1 + (2 if crc else 0) + (16 if large else 8)
@@ -226,6 +320,8 @@ def max_seg_reqs(remote, hdrl, crc, large=False):
 
 def oracle_c06(tr: Trace):
     """NAK contents against an independent record of what is stored; applies to acknowledged-mode traces."""
+    if any(st.tag == 0 and st.pdu is not None and st.pdu.get("large") == 1 for st in tr.steps):
+        return oracle_c06_large(tr)
     remote = tr.cfg["remotes"][0]
     pending = []            # NAK PDUs retrieved after the last call, with the call's info
 
